@@ -1,4 +1,4 @@
-import GB.C03.ProofsBuild
+import GB.C03.ProofsCompile
 /-
   C03 — property theorems. Theorems only; helper lemmas live in Proofs*.lean.
   `Tmpl` is the parsed template (`gwbased.Parse`, property C20), `Table` the routing table as a list of
@@ -30,6 +30,17 @@ theorem C03_matcher_other (t : Tmpl) (comps : List Bytes) (verb : Bytes) :
     simp [matchTmpl, h1, this]
   · rw [matchTmpl_own_verb]; exact matchSegs_ne_fault _
   · rw [matchTmpl_own_verb]; exact matchSegs_malformed
+
+/-- Compiler correctness, symbolic level: the op sequence `Compile` emits (`rawOps`, operands still strings),
+    run on the gateway's stack machine (`runSym`: pos/stack/concat/capture, `tailLen` = ops after the `**`),
+    computes exactly the structural matcher — for every template with at most one `**` and every component list.
+    (The resolution of pool / variable indices by `encode` + `npLoop` is tied by the differential run.) -/
+theorem C03_compiled_program (t : Tmpl) (hd : deepCount t.segs ≤ 1) (comps : List Bytes) :
+    rawOps t.segs = (symOps t.segs).map SOp.raw ∧
+    runSym (tailLenOfAtoms (atomsOf t.segs)) (symOps t.segs) comps [] [] = matchSegs t.segs comps := by
+  refine ⟨rawOps_eq_sym _, ?_⟩
+  rw [runSym_segs _ _ _ _ _ (tailOk_tailLenOfAtoms _ hd)]
+  cases matchSegs t.segs comps <;> simp
 
 /-- One route step (verb detection on the last raw segment, stripping, matching) decides `PathMatches`. -/
 theorem C03_path_matches {ι : Type} (e : ι × Bytes × Tmpl) (hd : deepCount e.2.2.segs ≤ 1)
